@@ -164,18 +164,71 @@ def wl_boundary(ctx, rng, case):
     case.nontrivial = True
 
 
+GEO_EST = [1, 2, 3, 5, 8, 10, 16, 25, 50, 100, 250, 500, 1000, 2000]
+GEO_RATE = [0.7, 0.6, 0.5, 0.4, 0.35, 0.3, 0.2, 0.1, 0.05, 0.01, 0.001, 1e-5]
+
+
+def wl_geometry(ctx, rng, case):
+    """the whole range of sizings: for (est_elements, rate) over a grid up to 2000 elements and rates 1e-5..0.7 (then random ones), insert distinct keys
+    across the est-th, est+1-th, 2*est-th and 2*est+1-th effective insertion; the closed form is checked after EVERY add, the stream at the boundaries"""
+    import probables as P
+
+    grid = [(e, r) for e in GEO_EST for r in GEO_RATE]
+    if case.index < len(grid):
+        est, rate = grid[case.index]
+    else:
+        est, rate = rng.choice([rng.randint(1, 60), rng.randint(60, 1500)]), rng.choice([rng.uniform(0.001, 0.7), 10 ** -rng.uniform(0.2, 6)])
+    mk = refimpl.bloom_sizing_simple(est, rate)
+    case.desc = {"est": est, "rate": rate, "kind": "geometry sweep"}
+    if mk is None or mk[1] < 1:
+        case.desc["skipped"] = "not a valid / unambiguous sizing"
+        return
+    hname, hf = gen.pick_hash(rng, [], kind=rng.choice(["library_default", "default_fnv_1a", "default_md5", "default_sha256"]))
+    f = P.ExpandingBloomFilter(est_elements=est, false_positive_rate=rate, **bl.kw_hash(hf))
+    effective = calls = 0
+    i = 0
+    target = 2 * est + 2
+    boundaries = {est - 1, est, est + 1, 2 * est, 2 * est + 1}
+    while effective < target and i < 3 * target + 50:
+        key = f"geo-{case.index}-{i}"
+        i += 1
+        present = f.check(key)
+        f.add(key)
+        calls += 1
+        if not present:
+            effective += 1
+        want = max(0, math.ceil(effective / est) - 1)
+        ctx.counters["oracle_evaluations"] += 1
+        if f.expansions != want:
+            ctx.fail(f"expansions is not max(0, ceil(I/est)-1) after I={effective} effective insertions (est_elements={est}, rate={rate})", got=f.expansions, want=want,
+                     bits=mk[0], hashes=mk[1])
+        if effective in boundaries and not present:
+            st, counts, _ = stream_state(f)
+            ctx.count("stream_parses")
+            ctx.check(all(c <= est for c in counts), f"a sub-filter received more than est_elements insertions (est={est}, rate={rate})", got=counts)
+            ctx.check(sum(counts) == effective and f.elements_added == calls, "insertion counts inconsistent", counts=counts, effective=effective, calls=calls)
+    ctx.count("closed_form_checks", calls)
+    ctx.count("geometry_sweep_cases")
+    ctx.observe("geometry_est", est, cap=2000)
+    ctx.count("cases_with_growth")
+    case.op("insertions", calls, "effective", effective)
+    case.nontrivial = True
+
+
 PROP = Prop(
     "C09",
     "exploration",
     rule=("history: random sequences of add (new / duplicate / forced) / add_alt / push / reload / query on expanding filters with est_elements in "
-          "{1,2,3,4,5,6,25}, 8 rates, 9 hash strategies (incl. colliding hand-written ones that produce false positives); boundary: deterministic "
+          "{1,2,3,4,5,6,25}, 8 rates, 9 hash strategies (incl. colliding hand-written ones that produce false positives); geometry: a grid of est_elements 1..2000 x rates 1e-5..0.7 (then random sizings) with distinct keys across the est-th / est+1-th / 2est-th / 2est+1-th "
+          "effective insertion, closed form checked after every add; boundary: deterministic "
           "walks across the est-th and est+1-th insertion with a forced duplicate, a plain duplicate or a reload placed exactly when the newest filter "
           "is full. Non-trivial = the filter grew at least once and the history contained a duplicate, a forced add or a reload; distinct by hash of (parameters, operations)."),
     workloads=[
         Workload("boundary", wl_boundary, quick=144, thorough=144),
+        Workload("geometry", wl_geometry, quick=len(GEO_EST) * len(GEO_RATE), thorough=len(GEO_EST) * len(GEO_RATE) + 3000),
         Workload("history", wl_history, quick=1200, thorough=100000),
     ],
     assumptions=["an add is 'effective' iff force or the filter's own check() was false just before the call (decided by the harness before the call)",
                  "per-filter counts are read from the exported stream with an independent parser"],
-    required=["stream_parses", "cases_with_growth", "suppressed_duplicate_adds", "forced_duplicate_adds", "op.reload", "closed_form_checks"],
+    required=["stream_parses", "cases_with_growth", "suppressed_duplicate_adds", "forced_duplicate_adds", "op.reload", "closed_form_checks", "geometry_sweep_cases"],
 )
